@@ -77,7 +77,7 @@ claim("C07", "other",
   "No numeric/relational abstract domain beyond constants and bit provenance is available.",
   "static analysis: bit-provenance abstract interpretation over go/ssa + sibling-agreement checks", "DESIGN.md §4 LA-runkind/LA-prefix/BP, §5 C07")
 claim("C15", "other",
-  "Necessary condition only (thin): the physical-type table used to regenerate a struct from a footer is the inverse of the schema type functions of the generated writer on every type C15 covers, and OPTIONAL <-> pointer on both sides; the footer schema's pointer-typed cells (num_children, repetition_type) are per element — not written through while shared, not reassigned per iteration while shared (LA-cells). The depth-first reconstruction structs.getStruct is checked as linear forms over its two counters (child at i+j, recursion from i+j+1, j += consumed, returns i+j) and field() tags with the element's own name (LA-structs). The footer fed to it is otherwise value-level and NOT decided.",
+  "Necessary condition only (thin): the physical-type table used to regenerate a struct from a footer is the inverse of the schema type functions of the generated writer on every type C15 covers, and OPTIONAL <-> pointer on both sides; the footer schema's pointer-typed cells (num_children, repetition_type) are per element — not written through while shared, not reassigned per iteration while shared (LA-cells). The depth-first reconstruction structs.getStruct is checked as linear forms over its two counters (child at i+j, recursion from i+j+1, j += consumed, returns i+j) and field() tags with the element's own name (LA-structs); the leaf repetition an optional/repeated column declares in the footer is the table entry of its own last repetition code (LA-leafkind). The footer fed to it is otherwise value-level and NOT decided.",
   "Thin by nature.",
   "static analysis: table-agreement check (go/ast constant table vs. SSA analysis of generated Type functions)", "DESIGN.md §4 LA-types, §5 C15")
 claim("C16", "other",
